@@ -17,6 +17,7 @@ package vh
 import (
 	"errors"
 	"fmt"
+	"reflect"
 	"strings"
 )
 
@@ -29,6 +30,28 @@ type Ctx struct {
 type Node struct {
 	Id   int
 	Kids []interface{}
+	Kept interface{} // MkX: the attribute slice X itself, read only when the result is rendered
+}
+
+// Children returns the node's children; for a node built by MkX they are read NOW from the retained slice.
+func (n *Node) Children() []interface{} {
+	if n.Kept == nil {
+		return n.Kids
+	}
+	v := reflect.ValueOf(n.Kept)
+	r := make([]interface{}, v.Len())
+	for i := range r {
+		r[i] = v.Index(i).Interface()
+	}
+	return r
+}
+
+// MkX keeps the slice X it is given (no copy): an action may retain its attributes.
+func MkX(c interface{}, id int, x interface{}) (interface{}, error) {
+	if err := enter(c, id); err != nil {
+		return nil, err
+	}
+	return &Node{Id: id, Kept: x}, nil
 }
 
 var ErrFail = errors.New("vh: planned failure")
@@ -56,7 +79,7 @@ func Mk(c interface{}, id int, kids []interface{}) (interface{}, error) {
 	if err := enter(c, id); err != nil {
 		return nil, err
 	}
-	return &Node{id, kids}, nil
+	return &Node{Id: id, Kids: kids}, nil
 }
 
 // Pct receives a string literal written in the grammar's action text; it must arrive unchanged.
@@ -65,16 +88,16 @@ func Pct(c interface{}, id int, tag string, kids []interface{}) (interface{}, er
 		return nil, err
 	}
 	if tag != "%s|%d|%%|%v|%!" {
-		return &Node{id + 1000000, kids}, nil
+		return &Node{Id: id + 1000000, Kids: kids}, nil
 	}
-	return &Node{id, kids}, nil
+	return &Node{Id: id, Kids: kids}, nil
 }
 
 func Sel(c interface{}, id int, x interface{}) (interface{}, error) {
 	if err := enter(c, id); err != nil {
 		return nil, err
 	}
-	return &Node{id, []interface{}{x}}, nil
+	return &Node{Id: id, Kids: []interface{}{x}}, nil
 }
 
 // TokOf receives a typed *token.Token (the $Tn form).
@@ -82,7 +105,7 @@ func TokOf(c interface{}, id int, t interface{}) (interface{}, error) {
 	if err := enter(c, id); err != nil {
 		return nil, err
 	}
-	return &Node{id, []interface{}{t}}, nil
+	return &Node{Id: id, Kids: []interface{}{t}}, nil
 }
 
 type G struct {
@@ -460,7 +483,7 @@ func showAttr(a interface{}, idx map[*token.Token]int) string {
 		return fmt.Sprintf("t%d:%d", k, int(x.Type))
 	case *vh.Node:
 		s := fmt.Sprintf("(n%d", x.Id)
-		for _, k := range x.Kids {
+		for _, k := range x.Children() {
 			s += " " + showAttr(k, idx)
 		}
 		return s + ")"
@@ -565,7 +588,7 @@ func showE2E(a interface{}) string {
 		return fmt.Sprintf("%d@%d:%d:%d", int(x.Type), x.Pos.Offset, x.Pos.Line, x.Pos.Column)
 	case *vh.Node:
 		s := fmt.Sprintf("(n%d", x.Id)
-		for _, k := range x.Kids {
+		for _, k := range x.Children() {
 			s += " " + showE2E(k)
 		}
 		return s + ")"
